@@ -71,6 +71,8 @@ def fresh_of(ex, st, shape, name):
         return Mat(fresh(name, A2), rows, cols)
     if shape.startswith("obj:"):
         return make_obj(ex, st, shape[4:], name)
+    if shape == "arr":
+        return fresh(name, A)
     if shape == "float":
         return FloatV(fresh(name, z3.RealSort()))
     raise ValueError(f"unknown shape {shape!r}")
